@@ -336,6 +336,9 @@ var templates = []string{
 	"[0] dup dup 0 exch put { dup 0 get } loop",
 	"{0} dup dup 0 exch put exec",
 	"/a {a 1} def a", "/a {1 a} def a", "/a {b} def /b {a 1} def a",
+	// names whose value is an executable name leading back to themselves
+	"/a {a} 0 get def a", "/a {b} 0 get def /b {a} 0 get def a", "/a {b} 0 get def /b {c} 0 get def /c {a} 0 get def {a} exec",
+	"/a {a} 0 get def {a} loop", "/a {a} 0 get def /a load exec",
 	// a procedure graph with sharing: 65 procedures, 2^64 paths
 	"/p {pop} def 64 { /p [ /p load dup ] cvx def } repeat /p load bind",
 	"/p {pop} def 40 { /p [ /p load dup dup ] cvx def } repeat /p load bind pop",
@@ -362,7 +365,7 @@ var templates = []string{
 func TestP2Programs(t *testing.T) {
 	rec := ev.New("C01", "programs")
 	defer rec.Finish(t)
-	rec.Rule("interpreter with MaxOps = 3000: recursion, self-reference and extreme-count templates (procedure holding itself in every slot then bind, arrays containing themselves under forall/loop, self- and mutually recursive names, exec of itself, begin/push loops, for with zero increment or overflowing control variable, copy/putinterval/getinterval/roll/index/repeat/array/string with counts near 2^63, failing error handlers, eexec/readstring/closefile on the current file, forall over systemdict with redefinition, CMap operators outside their blocks, unterminated strings and procedures, extreme numbers, odd DSC lines, control bytes), each alone and composed with random programs of the C02/C03 generators and with random byte strings and mutated programs. Same child-process oracle as the tuples part. Non-trivial: program has >= 2 tokens; distinct by text.")
+	rec.Rule("interpreter with MaxOps = 3000: recursion, self-reference and extreme-count templates (procedure holding itself in every slot then bind, arrays containing themselves under forall/loop, self- and mutually recursive names, cycles of names whose value is an executable name, exec of itself, begin/push loops, for with zero increment or overflowing control variable, copy/putinterval/getinterval/roll/index/repeat/array/string with counts near 2^63, failing error handlers, eexec/readstring/closefile on the current file, forall over systemdict with redefinition, CMap operators outside their blocks, unterminated strings and procedures, extreme numbers, odd DSC lines, control bytes), each alone and composed with random programs of the C02/C03 generators and with random byte strings and mutated programs. Same child-process oracle as the tuples part. Non-trivial: program has >= 2 tokens; distinct by text.")
 	var cases []*hcase
 	sh, n := ev.Shard()
 	for i, tm := range templates {
